@@ -27,11 +27,30 @@ pub struct LibCase {
     pub npy: bool,
 }
 
+/// Sizes around powers of two and other plausible buffer sizes (block-wise writers and readers).
+const BLOCK_EDGES: [usize; 14] = [255, 256, 257, 511, 513, 1023, 1024, 1025, 2047, 2049, 4095, 4096, 4097, 8193];
+
+fn big_shape() -> impl Strategy<Value = Vec<usize>> {
+    prop_oneof![
+        2 => any::<u16>().prop_map(|d| vec![BLOCK_EDGES[crate::engine::pick_idx(d, BLOCK_EDGES.len())]]),
+        1 => (600usize..=12_000).prop_map(|n| vec![n]),
+        1 => (20usize..=110, 20usize..=110).prop_map(|(a, b)| vec![a, b]),
+        1 => (9usize..=22, 9usize..=22, 9usize..=22).prop_map(|(a, b, c)| vec![a, b, c]),
+    ]
+}
+
 fn lib_strategy() -> impl Strategy<Value = LibCase> {
-    (shape_strategy(1, 6, 1, 6, 600), prop::collection::vec(zoo_bits(), 600), 0usize..=17, any::<bool>()).prop_map(|(shape, mut bits, precision, npy)| {
-        bits.truncate(elements(&shape));
-        LibCase { shape, bits, precision, npy }
-    })
+    (
+        prop_oneof![6 => shape_strategy(1, 6, 1, 6, 600).boxed(), 1 => big_shape().boxed()],
+        prop::collection::vec(zoo_bits(), 600),
+        0usize..=17,
+        any::<bool>(),
+    )
+        .prop_map(|(shape, pool, precision, npy)| {
+            let n = elements(&shape);
+            let bits = (0..n).map(|i| pool[(i * 7 + i / 600) % pool.len()]).collect();
+            LibCase { shape, bits, precision, npy }
+        })
 }
 
 fn ulp(v: f64) -> f64 {
@@ -129,16 +148,20 @@ pub struct PipeCase {
     pub consumer: Consumer,
     pub link: Link,
     pub precision: usize,
+    /// for Link::File: the output path already holds this many bytes of an earlier, longer file
+    #[serde(default)]
+    pub preexisting: Option<usize>,
 }
 
 fn value_spec(max_elems: usize) -> impl Strategy<Value = Spec> {
     (
-        shape_strategy(1, 4, 1, 6, max_elems),
+        prop_oneof![8 => shape_strategy(1, 4, 1, 6, max_elems).boxed(), 1 => big_shape().boxed()],
         prop::collection::vec(prop_oneof![3 => (0u32..5000).prop_map(|v| v as f64), 2 => 0.0f64..100.0, 1 => Just(0.0)], max_elems),
     )
-        .prop_map(|(shape, mut v)| {
-            v.truncate(elements(&shape));
-            Spec::new(shape, v)
+        .prop_map(|(shape, v)| {
+            let n = elements(&shape);
+            let values = (0..n).map(|i| v[(i * 5 + i / 400) % v.len()]).collect();
+            Spec::new(shape, values)
         })
 }
 
@@ -147,15 +170,17 @@ fn pipe_strategy() -> impl Strategy<Value = PipeCase> {
         value_spec(400),
         prop_oneof![Just(Producer::ViewText), Just(Producer::ViewNpy), Just(Producer::Fold)],
         prop_oneof![Just(Consumer::View), Just(Consumer::Fold), Just(Consumer::StatSum)],
-        prop_oneof![Just(Link::File), Just(Link::HarnessPipe), Just(Link::ShellPipe)],
+        prop_oneof![2 => Just(Link::File), 1 => Just(Link::HarnessPipe), 1 => Just(Link::ShellPipe)],
         0usize..=10,
+        prop::option::weighted(0.5, prop_oneof![Just(1usize), 1usize..=200, 4000usize..=40_000]),
     )
-        .prop_map(|(spec, producer, consumer, link, precision)| PipeCase {
+        .prop_map(|(spec, producer, consumer, link, precision, preexisting)| PipeCase {
             spec,
             producer,
             consumer,
             link,
             precision,
+            preexisting,
         })
 }
 
@@ -184,6 +209,15 @@ fn eval_pipe(ctx: &Ctx, case: &PipeCase) -> Verdict {
     };
     let mid = format!("mid.{ext}");
     let _ = std::fs::remove_file(dir.join(&mid));
+    if let (Link::File, Some(n)) = (case.link, case.preexisting) {
+        // the output path already exists and holds an earlier (typically longer) spectrum file
+        let earlier = if ext == "npy" {
+            crate::props::common::npy_bytes(&Spec::new(vec![n / 8 + 1], vec![7.0; n / 8 + 1]))
+        } else {
+            crate::props::common::text_bytes_precision(&Spec::new(vec![n / 4 + 1], vec![3.25; n / 4 + 1]), 2)
+        };
+        std::fs::write(dir.join(&mid), earlier).expect("write");
+    }
     let final_run = match case.link {
         Link::File => {
             prod_args.extend(["-o".to_string(), mid.clone(), "in.sfs".to_string()]);
@@ -236,7 +270,9 @@ fn eval_pipe(ctx: &Ctx, case: &PipeCase) -> Verdict {
         .nontrivial(case.spec.dims() >= 2)
         .label(format!("{:?}", case.producer))
         .label(format!("{:?}", case.consumer))
-        .label(format!("{:?}", case.link)))
+        .label(format!("{:?}", case.link))
+        .label(if case.link == Link::File && case.preexisting.is_some() { "overwrites-existing-file" } else { "fresh-output" })
+        .label(if case.spec.values.len() > 1024 { ">1024-values" } else { "<=1024-values" }))
 }
 
 // ---------------------------------------------------------------------------------------------
@@ -299,14 +335,14 @@ pub fn check(ctx: &Ctx) -> Check {
     let parts: Vec<Box<dyn Part>> = vec![
         Box::new(RandomPart {
             name: "lib-roundtrip",
-            rule: "shapes with 1..6 axes (<=600 cells) x f64 zoo (+-0, subnormals, 1e300, negatives, NaN payloads, +-inf) x precision 0..17 x {text, npy}: write::Builder -> file -> read::Builder with auto-detected format; npy bit-identical, text within half a unit of the p-th decimal (+1 ulp) for finite values, non-finite values must not make the read fail; non-trivial = (>=2 axes or a special value) and (npy or a value whose p-decimal rounding is not the identity)",
+            rule: "shapes with 1..6 axes (<=600 cells; one case in seven has 255..12000 cells with sizes around powers of two) x f64 zoo (+-0, subnormals, 1e300, negatives, NaN payloads, +-inf) x precision 0..17 x {text, npy}: write::Builder -> file -> read::Builder with auto-detected format; npy bit-identical, text within half a unit of the p-th decimal (+1 ulp) for finite values, non-finite values must not make the read fail; non-trivial = (>=2 axes or a special value) and (npy or a value whose p-decimal rounding is not the identity)",
             cases: ctx.tier.pick(5000, 80_000),
             strategy: Box::new(|| lib_strategy().boxed()),
             eval: Box::new(eval_lib),
         }),
         Box::new(RandomPart {
             name: "cli-pipelines",
-            rule: "producer in {view (text), view -O npy, fold} x consumer in {view, fold, stat -s sum} x link in {file via -o, OS pipe fed by the harness, shell pipe between two sfs processes}: the consumer must accept (exit 0) and its numbers must agree with what the producer wrote; non-trivial = >=2 axes",
+            rule: "producer in {view (text), view -O npy, fold} x consumer in {view, fold, stat -s sum} x link in {file via -o (half of them onto an existing, longer file), OS pipe fed by the harness, shell pipe between two sfs processes}: the consumer must accept (exit 0) and its numbers must agree with what the producer wrote; non-trivial = >=2 axes",
             cases: ctx.tier.pick(400, 5000),
             strategy: Box::new(|| pipe_strategy().boxed()),
             eval: Box::new(eval_pipe),
